@@ -54,6 +54,8 @@ class Sim:
         class SimProgress:
             def __iter__(self_p):
                 sim.loops += 1
+                # a new stepping loop: loop-instance bookkeeping starts afresh
+                sim.occ, sim.open, sim.cur = {}, {}, {}
                 for k, x in enumerate(iterable):
                     sim.step = k + 1
                     sim.log.ev("step_begin", sim.loops, k + 1)
